@@ -1137,11 +1137,17 @@ class Executor:
                 if all(v.kind == 'bool' and v.n is None for v in vals):
                     ts = [v.t for v in vals]
                     return [(vbool(z3.And(*ts) if is_and else z3.Or(*ts)), st)]
-                res = vals[-1]
-                for v in reversed(vals[:-1]):
-                    t = truth(v, st.heap)
-                    res = join_values(t, res, v) if is_and else join_values(t, v, res)
-                return [(res, st)]
+                try:
+                    res = vals[-1]
+                    for v in reversed(vals[:-1]):
+                        t = truth(v, st.heap)
+                        res = join_values(t, res, v) if is_and else join_values(t, v, res)
+                    return [(res, st)]
+                except Unsupported:
+                    if st.pure:
+                        ts = [truth(v, st.heap) for v in vals]
+                        return [(vbool(z3.And(*ts) if is_and else z3.Or(*ts)), st)]
+                    # operands of different kinds (e.g. `while self._events and not flag`): fork instead
 
         def go(i, s):
             res = []
@@ -1522,7 +1528,20 @@ class Executor:
             v = h1.lget(l.t, l.ty.elem, idx)
             self._assume_alive(v, s1)
             i = z3.Int('pop_i')
-            arrs = [sym.defarray(s1, i, z3.If(i < idx, a[i], a[i + 1]), 'pop') for a in h1.larrs(l.t, l.ty.elem)]
+            olds = h1.larrs(l.t, l.ty.elem)
+            idx0 = z3.simplify(idx) if not isinstance(idx, int) else z3.IntVal(idx)
+            if z3.is_int_value(idx0) and idx0.as_long() == 0 and sym.BOUND is None and sym.ARRAY_DEFS == 'axiom':
+                # pop(0): new[i] == old[i + 1]; stated in both directions (triggers new[i] and old[j]) so that
+                # facts about an element of the old list carry over to its new position and vice versa
+                arrs = []
+                j = z3.Int('pop_j')
+                for a in olds:
+                    c = fresh('pop0', a.sort())
+                    s1.assume(z3.ForAll([i], c[i] == a[i + 1], patterns=[c[i]]),
+                              z3.ForAll([j], z3.Implies(j > 0, a[j] == c[j - 1]), patterns=[a[j]]))
+                    arrs.append(c)
+            else:
+                arrs = [sym.defarray(s1, i, z3.If(i < idx, a[i], a[i + 1]), 'pop') for a in olds]
             h1.set_larrs(l.t, l.ty.elem, arrs)
             h1.set_llen(l.t, n - 1)
             out.append((v, s1))
